@@ -96,6 +96,44 @@ func isNilConst(v ssa.Value) bool {
 	return ok && c.Value == nil
 }
 
+// retValue resolves result #idx of a return: with named results (spilled because a deferred closure captures
+// them) go/ssa emits `*res = v; rundefers; return *res`; the value stored last in the return's own block is the
+// returned one (a deferred recover may still overwrite it on the panic path, which is a different path).
+func retValue(rt *ssa.Return, idx int) ssa.Value {
+	if idx < 0 || idx >= len(rt.Results) {
+		return nil
+	}
+	v := rt.Results[idx]
+	u, ok := v.(*ssa.UnOp)
+	if !ok || u.Op != token.MUL {
+		return v
+	}
+	a, ok := u.X.(*ssa.Alloc)
+	if !ok {
+		return v
+	}
+	b := rt.Block()
+	var last ssa.Value
+	for _, in := range b.Instrs {
+		if st, ok := in.(*ssa.Store); ok && st.Addr == a {
+			last = st.Val
+		}
+	}
+	if last != nil {
+		return last
+	}
+	// single predecessor chain without stores in between
+	for p := b; len(p.Preds) == 1; {
+		p = p.Preds[0]
+		for i := len(p.Instrs) - 1; i >= 0; i-- {
+			if st, ok := p.Instrs[i].(*ssa.Store); ok && st.Addr == a {
+				return st.Val
+			}
+		}
+	}
+	return v
+}
+
 // returnIsFailure: the return's error operand is provably non-nil on this path: a non-nil constant/constructor
 // call, or a value e for which the return block is dominated by the true edge of `e != nil`.
 func returnIsFailure(fn *ssa.Function, ret *ssa.Return) bool {
@@ -103,7 +141,7 @@ func returnIsFailure(fn *ssa.Function, ret *ssa.Return) bool {
 	if idx < 0 || idx >= len(ret.Results) {
 		return false
 	}
-	ev := ret.Results[idx]
+	ev := retValue(ret, idx)
 	if isNilConst(ev) {
 		return false
 	}
